@@ -15,7 +15,7 @@ CFGS = [("native", {}), ("no128", {}), ("portable", {})]
 def run(R):
     thorough = R.tier == "thorough"
     R.build_all(sorted({v for v, _ in CFGS}))
-    n = 60 if thorough else 8
+    n = 160 if thorough else 8
     merged, order = {}, []
     for i, (variant, env) in enumerate(CFGS):
         exe = R.cc("group_driver", ["group_driver.c"], variant)
